@@ -1084,3 +1084,63 @@ V("shaving-answers-stack-full", "break", ["C19", "C02", "C10"], SH, None, None, 
 V("shaving-full-stack-returns-unbound", "neutral", ["C19", "C02", "C10", "C04"], SH, None, None, "the same exit written as an explicit return of PROBLEM_UNBOUND",
   edits=[{"old": "        if stacks_top[0] >= len(shr_domains_stack) - 1:  # no room left for the temporary choice point of a probe\n            break\n",
           "new": "        if stacks_top[0] >= len(shr_domains_stack) - 1:  # no room left for the temporary choice point of a probe\n            return PROBLEM_UNBOUND\n"}])
+# ---- helper extraction (round 7): new small helpers are inlined before the rules read the program (nucsverif/inline.py)
+_RESET_CALL = """            reset(
+                self.problem,
+                self.shr_domains_stack,
+                self.not_entailed_propagators_stack,
+                self.dom_update_stack,
+                self.stacks_top,
+                self.triggered_propagators,
+            )
+"""
+_RESET_METHOD = """    def reset(self) -> None:
+        reset(
+            self.problem,
+            self.shr_domains_stack,
+            self.not_entailed_propagators_stack,
+            self.dom_update_stack,
+            self.stacks_top,
+            self.triggered_propagators,
+        )
+
+    def minimize(self, variable_idx: int)"""
+V("reset-as-method", "neutral", ["C03", "C04", "C11", "C01", "C02", "C17"], BS, None, None, "the optimisation loops call a new method self.reset() that wraps reset(...)",
+  edits=[{"old": _RESET_CALL, "new": "            self.reset()\n", "all": True}, {"old": "    def minimize(self, variable_idx: int)", "new": _RESET_METHOD}])
+V("reset-as-method-forgets-queue", "break", ["C03"], BS, None, None, "the same method re-initialises the stacks but no longer marks every propagator as triggered",
+  "optimize", edits=[{"old": _RESET_CALL, "new": "            self.reset()\n", "all": True},
+         {"old": "    def minimize(self, variable_idx: int)", "new": _RESET_METHOD.replace("        reset(\n            self.problem,", "        cp_init(").replace("            self.triggered_propagators,\n        )", "            np.array(self.problem.shr_domains_lst),\n        )")}])
+_CHOICE_OLD = """            add_propagators(
+                triggered_propagators,
+                not_entailed_propagators_stack[stacks_top[0]],
+                triggers,
+                dom_idx,
+                events,
+            )
+            statistics[STATS_IDX_SOLVER_CHOICE_NB] += 1
+            if stacks_top[0] > statistics[STATS_IDX_SOLVER_CHOICE_DEPTH]:
+                statistics[STATS_IDX_SOLVER_CHOICE_DEPTH] = stacks_top[0]
+"""
+_CHOICE_CALL = "            record_choice(statistics, triggers, not_entailed_propagators_stack, stacks_top, triggered_propagators, dom_idx, events)\n"
+_CHOICE_DEF = """@njit(cache=True)
+def record_choice(statistics, triggers, not_entailed_propagators_stack, stacks_top, triggered_propagators, dom_idx, events):
+    add_propagators(
+        triggered_propagators,
+        not_entailed_propagators_stack[stacks_top[0]],
+        triggers,
+        dom_idx,
+        events,
+    )
+    statistics[STATS_IDX_SOLVER_CHOICE_NB] += 1
+    if stacks_top[0] > statistics[STATS_IDX_SOLVER_CHOICE_DEPTH]:
+        statistics[STATS_IDX_SOLVER_CHOICE_DEPTH] = stacks_top[0]
+
+
+@njit(cache=True)
+def solve_one("""
+V("choice-bookkeeping-helper", "neutral", ["C17", "C01", "C02", "C04", "C08", "C09", "C15", "C19"], BS, None, None, "waking the propagators of a decision and its two counters moved into a new jitted helper",
+  edits=[{"old": _CHOICE_OLD, "new": _CHOICE_CALL}, {"old": "@njit(cache=True)\ndef solve_one(", "new": _CHOICE_DEF}])
+V("choice-bookkeeping-helper-counts-twice", "break", ["C17"], BS, None, None, "the same helper, but solve_one still increments the number of choices itself",
+  "solve_one", edits=[{"old": _CHOICE_OLD, "new": _CHOICE_CALL + "            statistics[STATS_IDX_SOLVER_CHOICE_NB] += 1\n"}, {"old": "@njit(cache=True)\ndef solve_one(", "new": _CHOICE_DEF}])
+V("choice-bookkeeping-helper-drops-ground", "break", ["C09", "C01", "C08"], BS, None, None, "the same helper, handing the decision's events over without the GROUND bit",
+  "solve_one", edits=[{"old": _CHOICE_OLD, "new": _CHOICE_CALL}, {"old": "@njit(cache=True)\ndef solve_one(", "new": _CHOICE_DEF.replace("        events,\n    )", "        events & 3,\n    )")}])
